@@ -312,7 +312,17 @@ class Fn:
         base = self.expr_of_local(p['l'], depth, seen)
         if not p['p']:
             return base
-        return ('proj', base, tuple(_proj_key(e) for e in p['p']))
+        keys = []
+        for e in p['p']:
+            if isinstance(e, dict) and 'ix' in e:
+                ie = self.expr_of_local(e['ix'], depth + 1, seen)
+                if isinstance(ie, tuple) and ie[0] == 'const' and 'v' in ie[1]:
+                    keys.append('[%s]' % ie[1]['v'])
+                else:
+                    keys.append('[]')
+            else:
+                keys.append(_proj_key(e))
+        return ('proj', base, tuple(keys))
 
     def expr_of_local(self, l, depth=0, seen=None):
         if seen is None:
